@@ -178,6 +178,8 @@ pub fn main(args: &Args) {
         let extra: &[(&str, &str)] = &[
             ("postgres", "drop procedure delete_actor, update_actor CASCADE;\n"),
             ("postgres", "CREATE STATISTICS s3 (ndistinct) ON a, b FROM t3;\n"),
+            ("snowflake", "select\n    a,\n    coalesce(first_value(case when a then b else null end) ignore nulls over (order by e), false) as c\nfrom d\n"),
+            ("ansi", "UPDATE table1 SET a = CASE WHEN t2.col = 'T' THEN TRUE WHEN t2.col = 'F' THEN FALSE ELSE NULL END FROM table2 t2;\n"),
             ("snowflake", "CREATE OR REPLACE EXTERNAL FUNCTION f(a VARCHAR) RETURNS VARIANT API_INTEGRATION = x REQUEST_TRANSLATOR = db.s.fn RESPONSE_TRANSLATOR = db.s.fn2 AS 'https://x/y';\n"),
         ];
         for (d, sql) in FUSION_PROBES.iter().chain(extra.iter()) {
@@ -185,7 +187,7 @@ pub fn main(args: &Args) {
                 continue;
             }
             for (i, sel) in sels.iter().enumerate() {
-                if i < 2 || ["layout", "convention", "LT01", "CV07"].contains(&sel.0.as_str()) {
+                if i < 2 || ["layout", "convention", "structure", "LT01", "CV07", "ST04"].contains(&sel.0.as_str()) {
                     items.push(Item { cls: "probe", dialect: d.to_string(), sel: sel.0.clone(), sel_kind: sel.1, sql: sql.to_string() });
                 }
             }
